@@ -222,6 +222,18 @@ def consistent(case: dict) -> bool:
 
 
 def advertised_excl(case: dict) -> tuple[Fraction, Fraction]:
+    """Exclusion bounds the battery pool ADVERTISES (docstring of `PowerBoundsCalculator`: per battery set the
+    larger of the aggregated battery bound and the sum of the inverter bounds; summed over the sets)."""
+    lo = hi = Fraction(0)
+    for g in case["groups"]:
+        a = aggregate(g["bats"])
+        lo += min(a["el"], sum(F(i["el"]) for i in g["invs"]))
+        hi += max(a["eu"], sum(F(i["eu"]) for i in g["invs"]))
+    return lo, hi
+
+
+def enforced_excl(case: dict) -> tuple[Fraction, Fraction]:
+    """Exclusion bounds `BatteryManager._get_bounds` enforces (never stricter than the advertised ones)."""
     aggs = [aggregate(g["bats"]) for g in case["groups"]]
     lo = min(sum(a["el"] for a in aggs), sum(F(i["el"]) for g in case["groups"] for i in g["invs"]))
     hi = max(sum(a["eu"] for a in aggs), sum(F(i["eu"]) for g in case["groups"] for i in g["invs"]))
@@ -229,11 +241,59 @@ def advertised_excl(case: dict) -> tuple[Fraction, Fraction]:
 
 
 def admitted(case: dict) -> bool:
+    """The quantifier of C01/C02: non-zero and |power| >= the ADVERTISED exclusion bound."""
     p = F(case["power"])
     if abs(p) <= CLOSE_TOL:
         return False
     lo, hi = advertised_excl(case)
     return not lo < p < hi
+
+
+def manager_admits(case: dict) -> bool:
+    p = F(case["power"])
+    if abs(p) <= CLOSE_TOL:
+        return True
+    lo, hi = enforced_excl(case)
+    return not lo < p < hi
+
+
+def real_domain_probe(case: dict) -> dict:
+    """The REAL `PowerBoundsCalculator.calculate` and the REAL `BatteryManager._check_request` on the case's
+    component data (floats): advertised exclusion bounds and whether the manager forwards the request."""
+    from frequenz.client.microgrid import ComponentMetricId as M
+    from frequenz.quantities import Power
+    from frequenz.sdk.microgrid._power_distributing._component_managers._battery_manager import BatteryManager
+    from frequenz.sdk.microgrid._power_distributing.request import Request
+    from frequenz.sdk.timeseries.battery_pool._component_metrics import ComponentMetricsData
+    from frequenz.sdk.timeseries.battery_pool._metric_calculator import PowerBoundsCalculator
+
+    bm = [M.POWER_INCLUSION_LOWER_BOUND, M.POWER_EXCLUSION_LOWER_BOUND, M.POWER_EXCLUSION_UPPER_BOUND,
+          M.POWER_INCLUSION_UPPER_BOUND]
+    im = [M.ACTIVE_POWER_INCLUSION_LOWER_BOUND, M.ACTIVE_POWER_EXCLUSION_LOWER_BOUND,
+          M.ACTIVE_POWER_EXCLUSION_UPPER_BOUND, M.ACTIVE_POWER_INCLUSION_UPPER_BOUND]
+    calc = PowerBoundsCalculator.__new__(PowerBoundsCalculator)
+    calc._bat_inv_map, calc._bat_bats_map = {}, {}  # type: ignore[attr-defined]
+    calc._battery_metrics, calc._inverter_metrics = bm, im  # type: ignore[attr-defined]
+    md = {}
+    for g in case["groups"]:
+        bids = frozenset(b["id"] for b in g["bats"])
+        iids = frozenset(i["id"] for i in g["invs"])
+        for b in g["bats"]:
+            calc._bat_inv_map[b["id"]] = iids  # type: ignore[attr-defined]
+            calc._bat_bats_map[b["id"]] = bids  # type: ignore[attr-defined]
+            md[b["id"]] = ComponentMetricsData(b["id"], TS, dict(zip(bm, (float(F(b[k])) for k in ("il", "el", "eu", "iu")))))
+        for i in g["invs"]:
+            md[i["id"]] = ComponentMetricsData(i["id"], TS, dict(zip(im, (float(F(i[k])) for k in ("il", "el", "eu", "iu")))))
+    sb = calc.calculate(md, {b["id"] for g in case["groups"] for b in g["bats"]})
+    out: dict[str, Any] = {"adv_excl": None}
+    if sb.exclusion_bounds is not None:
+        out["adv_excl"] = (sb.exclusion_bounds.lower.as_watts(), sb.exclusion_bounds.upper.as_watts())
+    mgr = BatteryManager.__new__(BatteryManager)
+    bat_ids = frozenset(b["id"] for g in case["groups"] for b in g["bats"])
+    mgr._battery_caches = {b: None for b in bat_ids}  # type: ignore[attr-defined]
+    req = Request(power=Power.from_watts(float(F(case["power"]))), component_ids=bat_ids, adjust_power=True)
+    out["manager_admits"] = mgr._check_request(req, build_components(case, lambda s: float(Fraction(s)))) is None  # pylint: disable=protected-access
+    return out
 
 
 # --------------------------------------------------------------------------- reference regime tagger
@@ -468,10 +528,10 @@ def oracle(case: dict, out: dict, prop: str) -> list[tuple[str, Any]]:
 
 CLAUSE_REGIMES = {
     "sum": ["adjust", "split_infeasible"],
-    "sign": ["overcommit"],
-    "remainder": ["adjust", "overcommit"],
-    "inverter-bounds": ["overcommit"],
-    "group-bounds": ["split_infeasible", "overcommit"],
+    "sign": [],
+    "remainder": ["adjust"],
+    "inverter-bounds": [],
+    "group-bounds": ["split_infeasible"],
     "no-headroom": ["exp0", "zero_ratio_min"],
 }
 
@@ -574,10 +634,12 @@ def gen_request(rng: random.Random, case: dict, lat: dict) -> Fraction:
     sides = [group_side(g, supply) for g in case["groups"]]
     lo, hi = advertised_excl(case)
     adv = -lo if supply else hi
+    elo, ehi = enforced_excl(case)
+    enf = -elo if supply else ehi
     sum_min = sum(s["min_p"] for s in sides)
     sum_ub = sum(s["ub"] for s in sides)
     live = [s for s in sides if s["avail"] > 0]
-    cands = [adv, adv, sum_min, sum_ub, sum_ub, (adv + sum_ub) / 2, sum_ub * Fraction(3, 2), sum_ub + 1,
+    cands = [adv, adv, enf, sum_min, sum_ub, sum_ub, (adv + sum_ub) / 2, sum_ub * Fraction(3, 2), sum_ub + 1,
              sum(s["ub"] for s in live) if live else sum_ub, max([s["min_p"] for s in sides] + [Fraction(1)]),
              Fraction(rng.choice(lat["anchors"])), Fraction(rng.randint(1, 40) * lat["scale"], 4)]
     # shares that land exactly on a group's minimum power or inclusion bound
@@ -596,8 +658,11 @@ def gen_request(rng: random.Random, case: dict, lat: dict) -> Fraction:
         v = v * (1 + Fraction(rng.choice([1, -1]), 10**10))
     elif r < 0.6:
         v = v + Fraction(rng.choice([1, -1, 2]), 10**9)
-    if rng.random() < 0.85 and v < adv:
+    r = rng.random()
+    if r < 0.8 and v < adv:
         v = adv + rng.choice([0, 0, 1, Fraction(1, 2), lat["scale"]])
+    elif r < 0.88 and v < enf:
+        v = enf + rng.choice([0, 1, Fraction(1, 2)])  # forwarded by the manager, maybe not advertised
     if v <= 0:
         v = adv if adv > 0 else Fraction(lat["scale"])
     return -v if supply else v
@@ -689,8 +754,9 @@ def exhaustive_small(limit: int | None = None) -> list[dict]:
                                         "bats": [{"id": 1 + 2 * k, "cap": "10", "soc": str(soc), "soc_lo": "10", "soc_hi": "90",
                                                   "il": str(-iu), "el": str(-eb), "eu": str(eb), "iu": str(iu)}],
                                         "invs": [{"id": 2 + 2 * k, "il": "-200", "el": str(-ei), "eu": str(ei), "iu": "200"}]})
-                                adv = max(e1b + e2b, e1i + e2i)
-                                for req in sorted({adv, adv + 1, adv + 30, 200 + iu2, 201 + iu2, max(adv, 150)}):
+                                enf = max(e1b + e2b, e1i + e2i)
+                                adv = max(e1b, e1i) + max(e2b, e2i)
+                                for req in sorted({enf, adv, adv + 1, adv + 30, 200 + iu2, 201 + iu2, max(adv, 150)}):
                                     if req == 0:
                                         continue
                                     for sgn in (1, -1):
@@ -742,6 +808,8 @@ def case_tags(case: dict, flags: list[str], cons: bool, adm: bool) -> tuple[list
         tags.append("inconsistent")
     if not adm:
         tags.append("not-admitted")
+        if manager_admits(case) and abs(p) > CLOSE_TOL:
+            tags.append("forwarded-by-manager-only")
     supply = not p > 0
     nohead = False
     beyond = False
@@ -759,7 +827,7 @@ def case_tags(case: dict, flags: list[str], cons: bool, adm: bool) -> tuple[list
     return tags, nontrivial
 
 
-def process(ctx: Any, prop: str, case: dict, mgr_probe: bool) -> dict:
+def process(ctx: Any, prop: str, case: dict, mgr_probe: bool, domain_probe: bool = False) -> dict:
     """Run one case on the real code (exact + float), tag it, evaluate the oracle, return the canonical
     implementation-side output for the comparison with the Lean driver."""
     out = run_impl(case, exact=True)
@@ -768,7 +836,7 @@ def process(ctx: Any, prop: str, case: dict, mgr_probe: bool) -> dict:
     tags, nontrivial = case_tags(case, flags, cons, adm)
     if "error" in out:
         ctx.case(case, tags=tags + ["ValueError"], nontrivial=False)
-        return {"error": out["error"], "consistent": cons, "admitted": adm}
+        return {"error": out["error"], "consistent": cons, "admitted": adm, "manager_admits": manager_admits(case)}
     p = F(case["power"])
     scale = max(Fraction(1), abs(p))
     # float run: measure the rounding gap
@@ -794,6 +862,21 @@ def process(ctx: Any, prop: str, case: dict, mgr_probe: bool) -> dict:
             for clause, observed in oracle(case, flr, prop):
                 if not any(v["case"] is case and v["clause"] == f"{prop}.{clause}" for v in ctx.violations[-8:]):
                     ctx.violation(f"{prop}.{clause}", case, {"impl_float": flr, **observed}, regime=regime_of(clause, flags))
+    # the domain predicates against the REAL PowerBoundsCalculator / _check_request (floats)
+    if domain_probe and cons:
+        rp = real_domain_probe(case)
+        lo, hi = advertised_excl(case)
+        tolp = 1e-9 * max(1.0, float(abs(lo)), float(abs(hi)))
+        margin = min(abs(p - lo), abs(p - hi))
+        elo, ehi = enforced_excl(case)
+        emargin = min(abs(p - elo), abs(p - ehi))
+        if rp["adv_excl"] is None or abs(rp["adv_excl"][0] - float(lo)) > tolp or abs(rp["adv_excl"][1] - float(hi)) > tolp:
+            ctx.mismatch(case, rp, {"adv_excl": [rat(lo), rat(hi)]}, "PowerBoundsCalculator.calculate vs advertised_excl()")
+        elif emargin > tolp and abs(p) > 2 * CLOSE_TOL and rp["manager_admits"] != manager_admits(case):
+            ctx.mismatch(case, rp, {"manager_admits": manager_admits(case)}, "BatteryManager._check_request vs manager_admits()")
+        elif adm and margin > tolp and not rp["manager_admits"]:
+            ctx.violation(f"{prop}.domain", case, {"note": "advertised bounds admit the request, the manager rejects it", **rp},
+                          regime=None)
     # what the battery manager reports
     if prop == "C01" and mgr_probe and in_domain and gap <= Fraction(1, 10**6):
         fail_ids = set(case.get("fail_ids") or [])
@@ -814,7 +897,7 @@ def process(ctx: Any, prop: str, case: dict, mgr_probe: bool) -> dict:
                 ctx.mismatch(case, r, ref, "BatteryManager._distribute_power report vs reference arithmetic")
     ctx.case(case, tags=tags, nontrivial=nontrivial)
     return {"dist": out["dist"], "rem": out["rem"], "flags": flags, "consistent": cons, "admitted": adm,
-            "mgr": manager_report(case, F(out["rem"]))}
+            "manager_admits": manager_admits(case), "mgr": manager_report(case, F(out["rem"]))}
 
 
 def prepare_failed(case: dict, rng: random.Random) -> None:
@@ -840,7 +923,7 @@ def run_property(ctx: Any, prop: str) -> None:
     outs: list[dict] = []
     for c in corpus_cases("C01") + corpus_cases("C02"):
         cases.append(c)
-        outs.append(process(ctx, prop, c, mgr_probe=True))
+        outs.append(process(ctx, prop, c, mgr_probe=True, domain_probe=True))
     for i in range(n):
         rng = ctx.subrng("case", i)
         r = rng.random()
@@ -849,7 +932,7 @@ def run_property(ctx: Any, prop: str) -> None:
         if probe and rng.random() < 0.5:
             prepare_failed(case, rng)
         cases.append(case)
-        outs.append(process(ctx, prop, case, mgr_probe=probe))
+        outs.append(process(ctx, prop, case, mgr_probe=probe, domain_probe=i % 5 == 1))
     if ctx.tier == "thorough":
         for c in exhaustive_small():
             finish_case(c)
@@ -865,5 +948,5 @@ def replay_property(ctx: Any, prop: str, data: dict) -> None:
     case = data.get("case")
     if not case or "groups" not in case:
         return run_property(ctx, prop)
-    out = process(ctx, prop, case, mgr_probe=prop == "C01")
+    out = process(ctx, prop, case, mgr_probe=prop == "C01", domain_probe=True)
     ctx.compare("Distribution", [case], [out], what="replayed case")
